@@ -2,7 +2,7 @@
 evaluated again INSIDE Coq with vm_compute on the Gallina definitions themselves, and the two answers
 are compared inside Coq.  Covers the entry points whose arguments are plain data (no oracle closures
 other than a finite MAC table): email_valid, validate, cs_load, cs_load_ok, netset_has, forwarded_query,
-auth_request_shape.
+auth_request_shape, redirect_location, signout_race, stamp_race.
 A disagreement means the extracted program or its OCaml glue does not compute what the theorems are about."""
 import os, re, subprocess, time
 
@@ -170,11 +170,36 @@ def _shape(args, out):
     return "(let '(a, b, c) := auth_request_shape %s %s in Nat.eqb a %d && Nat.eqb b %d && Nat.eqb c %d)" % (mm, c_bool(sn), a[1], b[1], c[1])
 
 
+@head("redirect_location")
+def _loc(args, out):
+    ok, r = args
+    return "str_eqb (GoPath.location_header %s %s) %s" % (c_bool(ok), c_str(r), c_str(out))
+
+
+@head("signout_race")
+def _sor(args, out):
+    ans, sched = args
+    stored, served = out
+    return ("(let s := SignOutRace.run (fun k => nth k %s true) SignOutRace.init %s in "
+            "Bool.eqb (match SignOutRace.store s with None => false | Some _ => true end) %s && "
+            "Bool.eqb (match SignOutRace.p_req s with SignOutRace.PDone (SignOutRace.Served _) => true | _ => false end) %s)"
+            % (c_list(c_bool, ans), c_list(c_bool, sched), c_bool(stored), c_bool(served)))
+
+
+@head("stamp_race")
+def _str(args, out):
+    (sched,) = args
+    a, b = out
+    return ("(let s := StampRace.run false StampRace.init %s in Bool.eqb (StampRace.is_served (StampRace.p0 s)) %s && "
+            "Bool.eqb (StampRace.is_served (StampRace.p1 s)) %s)" % (c_list(c_bool, sched), c_bool(a), c_bool(b)))
+
+
 PRELUDE = """From Coq Require Import List Bool ZArith NArith.
 Import ListNotations.
 From V.Lib Require Import Bytes Base64 NetAddr.
 From V.Gen Require Import Consts.
 From V.Model Require Import Signed Cookies CookieStore Authz Bypass Upstream Symbolic.
+From V.Model Require GoPath SignOutRace StampRace.
 Open Scope bool_scope.
 (* the OCaml driver's finite MAC table: unknown inputs map to a value that is not a byte string *)
 Definition tabf (t : list (str * str)) (k : str) : str := match assoc k t with Some v => v | None => [256%N] end.
